@@ -20,6 +20,8 @@ CLAIMS = {
          "trusts rustc's const evaluator, the published table generators re-implemented in sa/oracles.py, and Python's correctly rounded int->float"),
  "C09": ("decoder tables and constants decided exhaustively against the RFC/Unicode definitions (ESCAPED_TAB 256 entries, the four DIGIT_TO_VAL32 planes at the offsets the code uses, UTF-16/UTF-8 constants of both surrogate decoders and the encoder, U+FFFD replacement), one control-byte threshold in every string scanner with the escape branch taken only after the control test of the same block, StringBlock::LANES = lanes of its vector, and look-ahead after a high surrogate peeked rather than consumed on every path to the lossy replacement. Behaviour at block boundaries, borrow-vs-copy and lossy UTF-8 repair are NOT decided",
          "trusts rustc's const evaluator and MIR; RFC 8259 / UTF-8 / UTF-16 definitions encoded in sa/oracles.py"),
+ "C12": ("latch, flag and validation structure of the lazy iterators decided on the MIR: `ending` tested first and stored on every terminal exit (dominance), constructor flags (safe=true, unchecked/new_inner=false), validating skipper selected under skip_strict (flag-specialised reachability), UTF-8 verdict checked on the first step, raw span bounds taken from the reader index around the skip. Item contents and counts are NOT decided",
+         "trusts rustc's MIR/callee resolution; class-hierarchy edges for Reader/JsonInput"),
  "C18": ("static protocol obligations of the publish-once caches decided on the MIR of the current tree (weak-CAS discipline, hand-over type agreement, loser cleanup and returned pointer, owner clone/drop pairing, memory orderings); each is a necessary condition of C18; behaviour under interleavings is NOT decided",
          "trusts rustc's MIR and callee resolution, and the memory model's meaning of the ordering constants"),
 }
